@@ -295,7 +295,11 @@ def check_slotted_hierarchy(t, shape):
                 nodes = [(root_cls if i == 0 else other_cls)("n%d" % i, ["d", i]) for i in range(m.n)]
                 for i, nd in enumerate(nodes):
                     if isinstance(nd, weighted):
-                        nd.weight = 10 + i
+                        # slot values that are easy to lose: None, 0, "" - and (i % 4 == 3) a slot that is not set at all
+                        if i % 4 == 3:
+                            del nd.weight
+                        else:
+                            nd.weight = (None, 0, "", 10 + i)[i % 4]
                     if m.par[i] is not None:
                         nd.parent = nodes[m.par[i]]
                 return nodes
@@ -314,8 +318,10 @@ def check_slotted_hierarchy(t, shape):
                     t.c["evaluations"] += 1
                     t.c["slotted_hierarchy_copies"] += 1
                     for o, c in pairs:
-                        if isinstance(o, weighted) and getattr(c, "weight", "<lost>") != o.weight:
-                            why.append("slot 'weight' of the subclass is lost in the copy")
+                        if isinstance(o, weighted):
+                            ow, cw = getattr(o, "weight", "<unset>"), getattr(c, "weight", "<unset>")
+                            if ow != cw or type(ow) is not type(cw):
+                                why.append("slot 'weight' of the subclass differs in the copy: %r vs %r" % (ow, cw))
                     if why:
                         t.violation("C19: " + why[0], {"engine": "E2", "module": MOD, "part": "slotted", "shape": shape,
                                                        "first_serialised": "base class" if first_is_base else "subclass",
